@@ -197,6 +197,16 @@ CHECKS = {
               'universe in which any collision is a violation.'),
         design_ref='DESIGN.md section 5 C12',
         note='Trusted: the transcription of the documented alphabets in vf/ast.py. The library\'s own standard-notation output is not required to be parseable (the property does not state it).'),
+    'C13': dict(
+        category='exploration',
+        technique='exhaustive short strings + Hypothesis text / grammar-mutation strings with predicate stores and parse histories + atheris (libFuzzer) byte-level target; oracle: Sentence-or-ParseError, independent closedness walker, fresh-parser differential',
+        text=('Every string of <= 4 characters over each notation\'s (thinned) alphabet plus a foreign character is parsed '
+              '(exhaustive: true for that part); random and grammar-mutated strings are parsed under different predicate stores and '
+              'after histories of earlier parses and compared with a fresh parser holding the same store; a coverage-guided '
+              'atheris target with the same oracle inside runs from an empty and from a seeded corpus. Anything but a Sentence or a '
+              'ParseError, an ill-formed returned sentence, or a history-dependent result is a violation.'),
+        design_ref='DESIGN.md section 5 C13',
+        note='Trusted: the structural walker. Nesting depth is bounded by the interpreter\'s recursion limit, which is not the parser\'s property; RecursionError is not judged.'),
 }
 
 NOT_YET = 'check not built yet in this session (planned, see DESIGN.md section 5); no claim is made'
